@@ -198,6 +198,16 @@ where
 }
 
 /// Returns a Vec of deduped EventIds that appear in some chains but not others.
+/// Verification hook: the auth chain difference computed by `resolve`.
+#[cfg(ruma_verif)]
+#[doc(hidden)]
+pub fn verif_auth_chain_diff<Id>(auth_chain_sets: Vec<HashSet<Id>>) -> Vec<Id>
+where
+    Id: Eq + Hash,
+{
+    get_auth_chain_diff(auth_chain_sets).collect()
+}
+
 fn get_auth_chain_diff<Id>(auth_chain_sets: Vec<HashSet<Id>>) -> impl Iterator<Item = Id>
 where
     Id: Eq + Hash,
